@@ -1,6 +1,7 @@
 import NibabelModel.Model.C18
 import NibabelModel.Lemmas.PySlice
 import NibabelModel.Lemmas.C18
+import NibabelModel.Lemmas.C18_Map
 /-!
   Props/C18 — property theorems for C18 (CIFTI-2 axes, header XML and matrix data stay mutually
   consistent).  All statements are unbounded (any axis length, any index object, any slice).
@@ -15,8 +16,17 @@ import NibabelModel.Lemmas.C18
     list, and `from_index_mapping ∘ to_mapping` is the identity on element descriptions
     (`runs_*`, `scatter_runs`, `bm_mapping_roundtrip`).
 
-  PARTIAL with respect to the property text: the XML layer and the NIfTI-2 container are not modelled
-  (trusted/external; exercised by the round-trip oracle only).
+  * to_mapping / from_index_mapping of the OTHER axes (phase-3 extension): `series_mapping_roundtrip`,
+    `scalar_mapping_roundtrip`, `label_mapping_roundtrip` (explicit label tables = dicts with unique keys),
+    `label_xml_roundtrip` + `label_colour_xml` (the colour text `'0' / '1' / str(val)` of `Cifti2Label`, under
+    the contract float(str(v)) = v), `parcels_mapping_roundtrip` (EVERY `nvertices` entry survives, used or
+    not) and `parcels_mapping_missing_surface`.
+  * `positions_lt`, `slice_positions_length`, `gather_getElem`, `bm_valid_of_mk` are GLUE (helper facts /
+    definitional bridges), kept because other statements are read through them.
+
+  PARTIAL with respect to the property text: the XML text layer (expat / ElementTree, float repr, the 10-decimal
+  affine text) and the NIfTI-2 container are not modelled (trusted/external contract; exercised by the
+  round-trip oracle and the `xrt` correspondence streams only).
 -/
 namespace Nb.C18
 open Nb
@@ -141,7 +151,8 @@ theorem series_orig_counterexample :
 
 /-! ## list-backed axes: indexing is a gather of the element descriptions -/
 
-/-- every position selected by a NumPy index on a length-`n` axis is `< n` -/
+/-- GLUE (helper fact used by the `*_index_is_gather` theorems, not a property clause by itself):
+    every position selected by a NumPy index on a length-`n` axis is `< n` -/
 theorem positions_lt (n : Nat) (idx : Index) (ps : List Nat) (h : positions n idx = .ok ps) :
     ∀ p ∈ ps, p < n := positions_lt' n idx ps h
 
@@ -150,7 +161,7 @@ example : positions 5 (.slice ⟨some (-9), none, some 2⟩) = .ok [0, 2, 4] ∧
     positions 3 (.arr [3]) = .error .indexError ∧ positions 3 (.mask [true]) = .error .indexError := by
   decide
 
-/-- a slice selects `len(range(n)[s])` positions -/
+/-- GLUE (helper fact): a slice selects `len(range(n)[s])` positions -/
 theorem slice_positions_length (n : Nat) (s : PySlice) (ps : List Nat)
     (h : positions n (.slice s) = .ok ps) : ps.length = s.len n := by
   simp only [positions] at h
@@ -158,7 +169,8 @@ theorem slice_positions_length (n : Nat) (s : PySlice) (ps : List Nat)
   · cases h
   · injection h with h; subst h; exact PySlice.sel_length s n
 
-/-- the `k`-th element of a gather is the element at the `k`-th position (so, with the theorems
+/-- GLUE (helper fact about the specification function `gather`):
+    the `k`-th element of a gather is the element at the `k`-th position (so, with the theorems
     below, element `k` of `axis[idx]` is element `positions[k]` of `axis`) -/
 theorem gather_getElem {α} (l : List α) (ps : List Nat) (h : ∀ p ∈ ps, p < l.length)
     (k : Nat) (hk : k < ps.length) :
@@ -638,5 +650,73 @@ example : exampleBM.Valid :=
     (some (2, 3, 4)) [(0, 4), (5, 9)] exampleBM (by decide)
 
 example : (bmToMapping exampleBM >>= bmFromMapping).map BM.elements = .ok exampleBM.elements := by decide
+
+/-! ## to_mapping / from_index_mapping of the Series, Scalar, Label and Parcels axes (phase-3 extension) -/
+
+/-- SeriesAxis: `from_index_mapping (to_mapping a) = a` for every start/step/size/unit (the exponent written is
+    0, and `x * 10 ** 0 = x`).  Small, but it is the whole logic of this pair of functions. -/
+theorem series_mapping_roundtrip (a : Series) :
+    seriesFromMapping (seriesToMapping a) = a ∧ (seriesToMapping a).npoints = a.size :=
+  ⟨series_mapping_roundtrip' a, rfl⟩
+
+example : seriesFromMapping (seriesToMapping ⟨-3, 7, 5, 2⟩) = ⟨-3, 7, 5, 2⟩ ∧
+    seriesFromMapping ⟨2, 5, 3, 4, 0⟩ = ⟨500, 300, 4, 0⟩ := by decide
+
+/-- ScalarAxis: one NamedMap per element, and reading them back gives the same axis -/
+theorem scalar_mapping_roundtrip (a : Scalar) (hv : a.mta.length = a.name.length) :
+    scalarFromMapping (scalarToMapping a) = .ok a ∧ (scalarToMapping a).length = a.size :=
+  scalar_mapping_roundtrip' a hv
+
+example : scalarFromMapping (scalarToMapping ⟨[1, 2, 1], [4, 0, 6]⟩) = .ok ⟨[1, 2, 1], [4, 0, 6]⟩ := by decide
+
+/-- LabelAxis with explicit label tables (dicts: unique keys, any order, any Int keys): building the
+    `Cifti2LabelTable`s entry by entry and reading them back with the dict comprehension of
+    `from_index_mapping` gives back exactly the same axis — names, metadata, and every table with its
+    entries in the same order. -/
+theorem label_mapping_roundtrip (a : LabelR) (hv : a.Valid) :
+    labelRFromMapping (labelRToMapping a) = .ok a := label_mapping_roundtrip' a hv
+
+/-- … and through the XML text (header → XML → header): the same axis with every colour component passed
+    through `colXml` — for tables of any size. -/
+theorem label_xml_roundtrip (a : LabelR) (hv : a.Valid) :
+    labelRXrt a = .ok { a with table := a.table.map (fun t => t.map LEntry.xml) } :=
+  label_xml_roundtrip' a hv
+
+/-- the colour text of `Cifti2Label._to_xml_element` loses nothing: under the contract `float(str(v)) = v` the
+    component read back compares equal (`==` on floats) to the one written, and is bit-identical unless it
+    was `-0.0` (written as `'0'`). -/
+theorem label_colour_xml (c : Nat) : colEq (colXml c) c = true ∧ (c ≠ negZeroBits → colXml c = c) :=
+  colXml_spec c
+
+/-- 76/255 (0x3FD3131313131313) and a `-0.0` alpha, keys in non-sorted order -/
+def exampleLabelR : LabelR :=
+  ⟨[1, 2], [[⟨5, 0, 4599094494223104787, 0, 4607182418800017408, negZeroBits⟩, ⟨-1, 3, 1, 2, 3, 4⟩], [⟨0, 1, 0, 0, 0, 0⟩]],
+   [0, 7]⟩
+
+example : exampleLabelR.Valid := ⟨by decide, by decide, by decide⟩
+example : labelRXrt exampleLabelR = .ok ⟨[1, 2],
+    [[⟨5, 0, 4599094494223104787, 0, 4607182418800017408, 0⟩, ⟨-1, 3, 1, 2, 3, 4⟩], [⟨0, 1, 0, 0, 0, 0⟩]], [0, 7]⟩ := by
+  decide
+/-- the uniqueness hypothesis is needed: a "table" with a repeated key is not a dict -/
+example : ltBuild [⟨1, 0, 0, 0, 0, 0⟩, ⟨1, 2, 0, 0, 0, 0⟩] = [⟨1, 2, 0, 0, 0, 0⟩] := by decide
+
+/-- ParcelsAxis with explicit voxel lists and vertex dicts: `from_index_mapping (to_mapping a) = a` — names,
+    voxels, vertex dicts, affine, volume shape and the WHOLE `nvertices` dict (also the surfaces that no parcel
+    uses, e.g. after indexing or concatenation), in the same order. -/
+theorem parcels_mapping_roundtrip (a : ParcelsR) (hv : a.Valid) :
+    parcelsRFromMapping (parcelsRToMapping a) = .ok a := parcels_mapping_roundtrip' a hv
+
+/-- parcel 0 on surface 0, parcel 1 voxels only; surface 4 is in `nvertices` but unused -/
+def exampleParcelsR : ParcelsR :=
+  ⟨[1, 2], [[], [(0, 1, 2), (1, 1, 1)]], [[(0, [3, 5])], []], some 1, some (2, 3, 4), [(4, 9), (0, 6)]⟩
+
+example : exampleParcelsR.Valid := ⟨by decide, by decide, by decide, by decide, by decide⟩
+example : parcelsRFromMapping (parcelsRToMapping exampleParcelsR) = .ok exampleParcelsR := by decide
+
+/-- a parcel with vertices on a structure that has no `nvertices` entry cannot be read back (ValueError
+    "Number of vertices for surface structure … not defined"): the hypothesis of the round trip is needed -/
+example : parcelsRFromMapping (parcelsRToMapping ⟨[1], [[]], [[(0, [3])]], none, none, [(4, 9)]⟩)
+    = .error .valueError := by decide
+
 
 end Nb.C18
